@@ -1,15 +1,14 @@
 (* C09 — the formatter preserves meaning, is idempotent and emits parseable source.
    Statements with Print Assumptions beneath; the proofs are in coq/proofs/Bcl*.v (the short
    bridging lemmas between doc_of and the proofs' position-free view are here).
-   The full statement is kept as a Definition and is NOT proved: its clauses output-accepted
-   and same-document are (C09_accepted_same_document, for all inputs); idempotence is not.
-   Also proved: totality, the literal / token / line level (tokenSource is a right inverse of the
+   The full statement C09_full_statement is proved as C09_full (all inputs, rune level).
+   Also stated: totality, the literal / token / line level (tokenSource is a right inverse of the
    lexer for every token the lexer emits, adjacent tokens cannot fuse), the re-flow keeps
    paragraphs and is a fixed point. *)
 From Coq Require Import String List NArith ZArith Bool.
 From J5V.lib Require Import Text Outcome.
 From J5V.model Require Import BclLexer BclParser BclFmt.
-From J5V.proofs Require Import BclPosProofs BclLexerProofs BclParserProofs BclFmtProofs BclFmtLitProofs BclReflowProofs BclLexLitProofs BclFmtSeqProofs BclFragWfProofs BclFmtLineProofs BclWalkBackProofs BclFmtFileProofs BclDescGapProofs BclFmtRoundProofs.
+From J5V.proofs Require Import BclPosProofs BclLexerProofs BclParserProofs BclFmtProofs BclFmtLitProofs BclReflowProofs BclLexLitProofs BclFmtSeqProofs BclFragWfProofs BclFmtLineProofs BclWalkBackProofs BclFmtFileProofs BclDescGapProofs BclFmtRoundProofs BclFmtIdemProofs.
 Import ListNotations.
 
 (* ---- the position-free document of a fragment list -------------------------------------------- *)
@@ -289,13 +288,21 @@ Proof.
 Qed.
 Print Assumptions C09_accepted_same_document.
 
-(* PARTIAL: C09_full_statement itself is not proved.  Proved above: everything except its last clause
-   (C09_accepted_same_document).  Missing: fmt_runes out = Ok out, i.e. that rendering is a normal form on its
-   own image.  The text of every line is determined by the documents (and for descriptions by
-   C09_reflow_fixed_point), but the blank lines Fmt prints depend on the line numbers of the
-   fragments in the text it reads, and no theorem here computes the positions of the tokens of
-   the output.  Idempotence is evaluated on every run by the direct oracle (format twice) and the
-   byte-exact correspondence of Fmt. *)
+(* formatting twice changes nothing: whatever Fmt returns is a fixed point of Fmt.  The fragments read
+   back have the same documents, the text of a line is a function of the document, the re-flow is a
+   fixed point, and a fragment read back starts one line after the previous one ended, or two when Fmt
+   printed an empty line, so the second run prints the same empty lines *)
+Theorem C09_idempotent : forall data out, fmt_runes data = Ok out -> fmt_runes out = Ok out.
+Proof. exact fmt_idempotent. Qed.
+Print Assumptions C09_idempotent.
+
+(* ---- the full statement ---------------------------------------------------------------------------- *)
+Theorem C09_full : C09_full_statement.
+Proof.
+  intros data Ha. destruct (C09_accepted_same_document data Ha) as (out & fs & fs' & Hf & Hacc & Hc & Hc' & Hd).
+  exists out, fs, fs'. repeat (split; [assumption|]). apply (C09_idempotent data out Hf).
+Qed.
+Print Assumptions C09_full.
 
 (* non-vacuity: a string with every escapable rune, a regex with slashes, nested array, trailing
    comment, description: accepted, formatted, the output accepted with the same document, and a
